@@ -542,6 +542,39 @@ class _ExactFFT:
     ifftshift = staticmethod(np.fft.ifftshift)
 
 
+def _reduce_minmax(fn, npf):
+    def f(a, axis=None, **kw):
+        if not is_sym(a):
+            return npf(a, axis=axis, **kw)
+        a = _oarr(a)
+        if axis is None:
+            return fn(list(a.ravel()))
+        moved = np.moveaxis(a, axis, 0)
+        out = np.empty(moved.shape[1:], dtype=object)
+        for i in np.ndindex(out.shape):
+            out[i] = fn([moved[(k,) + i] for k in range(moved.shape[0])])
+        return out.view(SymArr)
+    return f
+
+
+def _ptp(a, axis=None, **kw):
+    if not is_sym(a):
+        return np.ptp(a, axis=axis, **kw)
+    return _reduce_minmax(sx.smax, np.max)(a, axis) - _reduce_minmax(sx.smin, np.min)(a, axis)
+
+
+def _mean(a, axis=None, **kw):
+    if not is_sym(a):
+        return np.mean(a, axis=axis, **kw)
+    a = _oarr(a)
+    if axis is None:
+        tot = 0
+        for v in a.ravel():
+            tot = tot + v
+        return tot / a.size
+    return np.sum(a, axis=axis) / a.shape[axis]
+
+
 def _unravel_index(k, shape, **kw):
     if not is_sym(k):
         return np.unravel_index(k, shape, **kw)
@@ -609,7 +642,8 @@ def make_shim(pi=False, **over):
         isclose=_isclose, allclose=_allclose, all=_all, any=_any, asarray=_asarray, array=_array,
         linspace=_linspace, arange=_arange, cumsum=_cumsum, digitize=_digitize, arctan2=_arctan2,
         angle=_angle, hypot=_hypot, round=_round, around=_round, real=_real_part, imag=_imag_part,
-        conj=_conj, conjugate=_conj, isscalar=_isscalar, iscomplexobj=_iscomplexobj, add=_AddAt(), unravel_index=_unravel_index, prod=_prod, fft=_ExactFFT, linalg=_Linalg(),
+        conj=_conj, conjugate=_conj, isscalar=_isscalar, iscomplexobj=_iscomplexobj, add=_AddAt(), unravel_index=_unravel_index,
+        max=_reduce_minmax(sx.smax, np.max), min=_reduce_minmax(sx.smin, np.min), amax=_reduce_minmax(sx.smax, np.max), amin=_reduce_minmax(sx.smin, np.min), ptp=_ptp, mean=_mean, finfo=(lambda dt: np.finfo(np.float64) if (dt is object or np.dtype(dt) == object) else np.finfo(dt)), prod=_prod, fft=_ExactFFT, linalg=_Linalg(),
         float32=object, float64=object, complex64=object, complex128=object,
         ones=_int_alloc("ones"), zeros=_int_alloc("zeros"), empty=_int_alloc("empty"),
     )
